@@ -361,3 +361,79 @@ let close_run (n : int) (order : int list) : bool * bool =
      | [] -> ())
   done;
   (!early, Model.cc_closed !s)
+
+(* ---------------- lock-step replay of a recorded trace of the real queue (mqs) ---------------- *)
+(* mqr <a|f> <nrecv> <labels> <res> <q> <blocked> *)
+let mqr_case (f : string array) : string =
+  let fixed = f.(1) <> "a" in
+  let nrecv = int_of_string f.(2) in
+  let labels = if f.(3) = "-" then [] else String.split_on_char ';' f.(3) in
+  let s = ref (Model.mq_init (nat_of_int nrecv)) in
+  let results = Array.make nrecv [] in
+  let fail = ref None in
+  let step_recv t l =
+    let before = !s in
+    match Model.mq_step_replay fixed before l with
+    | None -> false
+    | Some s' ->
+        let was_in = List.nth before.Model.rs t <> Model.Idle in
+        let now_idle = List.nth s'.Model.rs t = Model.Idle in
+        let is_call = (match l with Model.CallPop _ | Model.CallTry _ | Model.CallTimed _ -> true | _ -> false) in
+        if now_idle && (was_in || is_call) then begin
+          let g = List.length before.Model.got and g' = List.length s'.Model.got in
+          let r = if g' > g then "v" ^ string_of_int (nat_to_int (List.nth s'.Model.got (g' - 1))) else "N" in
+          results.(t) <- results.(t) @ [r]
+        end;
+        s := s'; true in
+  List.iteri (fun k lab ->
+      if !fail = None then begin
+        let n = String.length lab in
+        let num from = int_of_string (String.sub lab from (n - from)) in
+        let wopt x = if x = "-" then None else Some (nat_of_int (int_of_string x)) in
+        let ok =
+          if n >= 2 && String.sub lab 0 2 = "TK" then
+            (match Model.mq_step_replay fixed !s (Model.Tick (nat_of_int (num 2))) with Some s' -> s := s'; true | None -> false)
+          else if n >= 2 && String.sub lab 0 2 = "TO" then
+            (match Model.mq_step_replay fixed !s (Model.Timeout (nat_of_int (num 2))) with Some s' -> s := s'; true | None -> false)
+          else if n >= 2 && String.sub lab 0 2 = "CP" then step_recv (num 2) (Model.CallPop (nat_of_int (num 2)))
+          else if n >= 2 && String.sub lab 0 2 = "CT" then step_recv (num 2) (Model.CallTry (nat_of_int (num 2)))
+          else if n >= 2 && String.sub lab 0 2 = "CD" then begin
+            let (a, b) = split2 ':' (String.sub lab 2 (n - 2)) in
+            step_recv (int_of_string a) (Model.CallTimed (nat_of_int (int_of_string a), nat_of_int (int_of_string b)))
+          end
+          else if lab.[0] = 'R' then step_recv (num 1) (Model.Resume (nat_of_int (num 1)))
+          else if lab.[0] = 'P' then begin
+            let (v, w) = split2 ':' (String.sub lab 1 (n - 1)) in
+            (match Model.mq_step_replay fixed !s (Model.Push (nat_of_int (int_of_string v), wopt w)) with Some s' -> s := s'; true | None -> false)
+          end
+          else if lab.[0] = 'U' then begin
+            let (_, w) = split2 ':' lab in
+            (match Model.mq_step_replay fixed !s (Model.Unblock (wopt w)) with Some s' -> s := s'; true | None -> false)
+          end
+          else false in
+        if not ok then fail := Some (Printf.sprintf "label %d (%s) is not enabled in the model" k lab)
+      end) labels;
+  match !fail with
+  | Some why -> "LOCKSTEP-FAIL " ^ why
+  | None ->
+      (* final comparison: per-receiver results, queue content, who is blocked *)
+      let impl_res = Array.make nrecv [] in
+      if f.(4) <> "-" then
+        List.iter (fun x -> match String.split_on_char ':' x with
+            | [k; _; r] when k <> "p" -> let k = int_of_string k in impl_res.(k) <- impl_res.(k) @ [r]
+            | _ -> ()) (String.split_on_char ',' f.(4));
+      let bad = ref None in
+      for t = 0 to nrecv - 1 do
+        if !bad = None && impl_res.(t) <> results.(t) then
+          bad := Some (Printf.sprintf "receiver %d returned [%s] in the implementation, [%s] in the model" t
+                         (String.concat "," impl_res.(t)) (String.concat "," results.(t)))
+      done;
+      if !bad = None && q_str !s.Model.q <> f.(5) then
+        bad := Some (Printf.sprintf "queue is %s in the implementation, %s in the model" f.(5) (q_str !s.Model.q));
+      let blocked = List.filter (fun t -> Model.is_blocked (List.nth !s.Model.rs t)) (List.init nrecv (fun i -> i)) in
+      let bs = if blocked = [] then "-" else String.concat "," (List.map string_of_int blocked) in
+      if !bad = None && bs <> f.(6) then
+        bad := Some (Printf.sprintf "blocked receivers %s in the implementation, %s in the model" f.(6) bs);
+      (match !bad with
+       | Some why -> "LOCKSTEP-FAIL at the end: " ^ why
+       | None -> Printf.sprintf "LOCKSTEP-OK %d labels" (List.length labels))
